@@ -107,6 +107,44 @@ def conditions_guarding(stmt, stop=None):
     return out
 
 
+def effective_guards(stmt, stop=None):
+    """conditions_guarding plus the guard clauses that precede the statement (or one of its ancestors) in its block:
+    `if T: return / raise / continue / break` before it contributes (T, False), `if T: ... else: <exit>` contributes (T, True)."""
+    out = []
+    cur = stmt
+    while True:
+        p = getattr(cur, "_parent", None)
+        if p is None or p is stop:
+            break
+        for field in ("body", "orelse", "finalbody"):
+            blk = getattr(p, field, None)
+            if isinstance(blk, list) and any(x is cur for x in blk):
+                for x in blk:
+                    if x is cur:
+                        break
+                    if isinstance(x, ast.If):
+                        body_exits = _always_exits(x.body)
+                        else_exits = bool(x.orelse) and _always_exits(x.orelse)
+                        if body_exits and not else_exits:
+                            out.append((x.test, False, x))
+                        elif else_exits and not body_exits:
+                            out.append((x.test, True, x))
+        if isinstance(p, ast.If):
+            if any(x is cur for x in p.body):
+                out.append((p.test, True, p))
+            elif any(x is cur for x in p.orelse):
+                out.append((p.test, False, p))
+        if isinstance(p, (ast.FunctionDef, ast.Module)):
+            break
+        cur = p
+    return out
+
+
+def _always_exits(stmts):
+    pc = path_counts(stmts, lambda n: False)
+    return bool(pc) and "next" not in pc
+
+
 def _cap(n):
     return n if n < MANY else MANY
 
@@ -348,3 +386,103 @@ def stmts_of_block(compound):
                 out.append(s)
                 out.extend(stmts_of_block(s))
     return out
+
+
+# ---------------------------------------------------------------------------------------------------
+# loop nests as generator lists: nested for / itertools.product / pre-computed lists of index tuples / local aliases
+# ---------------------------------------------------------------------------------------------------
+def _single_def(fn, name):
+    defs = [s for s in stmts_of(fn, ast.Assign) if len(s.targets) == 1 and isinstance(s.targets[0], ast.Name) and s.targets[0].id == name]
+    stores = [n for n in ast.walk(fn) if isinstance(n, ast.Name) and isinstance(n.ctx, ast.Store) and n.id == name]
+    return defs[0].value if len(defs) == 1 and len(stores) == 1 else None
+
+
+class _Rename(ast.NodeTransformer):
+    def __init__(self, ren):
+        self.ren = ren
+
+    def visit_Name(self, node):
+        if node.id in self.ren:
+            return ast.Name(id=self.ren[node.id], ctx=node.ctx)
+        return node
+
+
+def loop_generators(stmt, fn):
+    """[(target name or None, iterable expression, defining node)] of the loops enclosing a statement, outermost first, with
+    `for a, b in product(X, Y)` / `product(X, repeat=2)` split into one generator per component, `for k, l in PAIRS` where PAIRS is a local bound once
+    to `[(k, l) for k in A for l in B]` replaced by the generators of that comprehension (renamed to the loop's targets), and iterables that are
+    single-assignment locals replaced by their definition.  Returns None when a loop is not understood."""
+    from .model import clone, call_name
+    loops = []
+    cur = stmt
+    while True:
+        lp = in_loop(cur)
+        if lp is None:
+            break
+        loops.insert(0, lp)
+        cur = lp
+    out = []
+
+    def resolve(e, depth=0):
+        if isinstance(e, ast.Name) and depth < 4:
+            d = _single_def(fn, e.id)
+            if d is not None and not isinstance(d, (ast.Constant,)):
+                return resolve(d, depth + 1)
+        return e
+    for lp in loops:
+        if not isinstance(lp, ast.For):
+            return None
+        it = resolve(lp.iter)
+        tg = lp.target
+        if isinstance(it, ast.Call) and call_name(it) == "product" and isinstance(tg, ast.Tuple):
+            rep = [k for k in it.keywords if k.arg == "repeat"]
+            comps = list(it.args)
+            if rep and isinstance(rep[0].value, ast.Constant) and isinstance(rep[0].value.value, int):
+                comps = comps * rep[0].value.value
+            if len(comps) != len(tg.elts) or not all(isinstance(e, ast.Name) for e in tg.elts):
+                return None
+            for e, c in zip(tg.elts, comps):
+                out.append((e.id, resolve(c), lp))
+            continue
+        if isinstance(it, ast.ListComp) and isinstance(tg, ast.Tuple) and isinstance(it.elt, ast.Tuple) and len(it.elt.elts) == len(tg.elts) \
+                and all(isinstance(e, ast.Name) for e in it.elt.elts) and all(isinstance(e, ast.Name) for e in tg.elts) \
+                and all(isinstance(g.target, ast.Name) and not g.ifs for g in it.generators) \
+                and [e.id for e in it.elt.elts] == [g.target.id for g in it.generators]:
+            ren = {g.target.id: e.id for g, e in zip(it.generators, tg.elts)}
+            for g, e in zip(it.generators, tg.elts):
+                out.append((e.id, _Rename(ren).visit(clone(g.iter)), lp))
+            continue
+        if isinstance(tg, ast.Name):
+            out.append((tg.id, it, lp))
+            continue
+        out.append((None, it, lp))
+    return out
+
+
+def specialise(stmts, decide):
+    """Partial evaluation of a statement list under a three-valued decision of its tests: decided `if`s are replaced by the arm taken, undecided
+    ones are kept with both arms specialised, statements after a certain continue / break / return / raise are dropped.
+    -> (statements, certainly_terminated)"""
+    out = []
+    for s in stmts:
+        if isinstance(s, ast.If):
+            d = decide(s.test)
+            if d is True or d is False:
+                sub, term = specialise(s.body if d else s.orelse, decide)
+                out += sub
+                if term:
+                    return out, True
+                continue
+            b1, t1 = specialise(s.body, decide)
+            b2, t2 = specialise(s.orelse, decide)
+            n = ast.If(test=s.test, body=b1 or [ast.Pass()], orelse=b2)
+            ast.copy_location(n, s)
+            n._parent = getattr(s, "_parent", None)
+            out.append(n)
+            if t1 and t2:
+                return out, True
+            continue
+        out.append(s)
+        if isinstance(s, (ast.Continue, ast.Break, ast.Return, ast.Raise)):
+            return out, True
+    return out, False
